@@ -17,16 +17,23 @@ extras (ds.add_key, and the real RolloutBaseline: wrap_dataset -> epoch -> _upda
 policy -> wrap_dataset again -> epoch), reads through different loaders (batch sizes, shuffle, partial final batch,
 single items, older wrappers) interleaved; every emitted extra must be the value of the wrapper read through / of the
 CURRENT baseline policy for exactly that instance; the whole trace is compared with the store model in Coq.
+Decision table (Data/BaselineUpdate.v): the REAL RolloutBaseline.epoch_callback is driven with table policies of tagged
+rewards (clearly better / worse / better but not significant / equal / n = 2 / constant differences / n = 1 / random rows and
+their shifted+scaled twins); observed: was self.policy replaced, bl_vals / mean / evaluation set refreshed, what the next
+wrap_dataset attaches; compared with the exact decision model (scipy's one-sided p at the model's t^2 as the oracle of the
+abstract p-value function, its monotonicity checked on the sampled points).
 Spec-on-impl (every run): the property's executable statement is evaluated on the implementation's own output;
 a failure is reported through ctx.failure.  DataLoader workers > 0 are NOT exercised (runtime behaviour)."""
 import math
 import types
 from fractions import Fraction
 
-from vt.common import Ctx, cz, cnat, cnatlist, clist, coq_eval_shards
+from vt.common import Ctx, cz, cnat, cnatlist, clist, cq, coq_eval_shards
 
 HEADER = ("From Coq Require Import List ZArith.\nFrom RL4CO Require Import Data.Dataset Harness.HC17.\n"
           "Import ListNotations.\n")
+HEADER_UPD = ("From Coq Require Import List ZArith QArith.\nFrom RL4CO Require Import Data.BaselineUpdate Harness.HC17_update.\n"
+              "Import ListNotations.\nOpen Scope Q_scope.\n")
 
 CLASSES = ["TensorDictDataset", "FastTdDataset", "TensorDictDatasetFastGeneration"]
 KX = 9            # number of the key "extra"
@@ -620,6 +627,194 @@ def judge_rollout_history(world, spec, events, outs):
     return judge_history(spec["cls"], spec["content"], [0], 1, events, exp, outs)
 
 
+# ------------------------------------------------------------------------------------------ epoch_callback: the decision
+DEC_SIG = "RolloutBaseline.epoch_callback: baseline update decision differs from (better mean and significant)"
+
+
+def decision_stats(cand, bl):
+    """exact (Fractions of 1/64): better-mean?, n, t^2 (None = no finite statistic), zero-variance?"""
+    n = len(cand)
+    better = Fraction(sum(cand), n) > Fraction(sum(bl), len(bl))
+    d = [Fraction(b - c, 64) for c, b in zip(cand, bl)]          # (-cand) - (-bl)
+    S, Q2 = sum(d), sum(x * x for x in d)
+    den = n * Q2 - S * S
+    t2 = S * S * (n - 1) / den if (n >= 2 and den != 0) else None
+    return better, n, t2, (n >= 2 and den == 0)
+
+
+def oracle_p(t2, df):
+    """scipy's own one-sided p-value at |t| = sqrt(t2): the oracle for the model's abstract function pv"""
+    from scipy.stats import t as student
+    return float(student.sf(math.sqrt(float(t2)), df))
+
+
+def expected_decision(spec):
+    """the property: replace iff the candidate's mean is strictly better AND the one-sided paired t-test gives p < alpha.
+    -> (expected: True/False/None = the statistic is undefined (n = 1), p or None, t2 or None)"""
+    cand = [spec["cand_table"][c] for c in spec["eval_content"]]
+    bl = [spec["bl_table"][c] for c in spec["eval_content"]]
+    better, n, t2, zero_var = decision_stats(cand, bl)
+    if not better:
+        return False, None, t2
+    if n < 2:
+        return None, None, None
+    if zero_var:
+        return spec["alpha"] > 0, 0.0, None
+    p = oracle_p(t2, n - 1)
+    return p < spec["alpha"], p, t2
+
+
+def decision_specs(ctx):
+    """the decision table + random rows; rewards are tagged per pool instance in units of 1/64 (exact in float32), all negative
+    (costs).  A row fixes the candidate-minus-incumbent difference PER POSITION of the evaluation set."""
+    rng = ctx.rng
+    out = []
+
+    def add(kind, M, diff_at, alpha, a=None):
+        """diff_at(position) -> candidate reward - incumbent reward (*64) at that position of the evaluation set"""
+        a = a or [-(320 + rng.randint(0, 63)) for _ in range(POOL)]
+        content = rng.sample(range(POOL), M)
+        b = [x + rng.randint(-8, 8) for x in a]                # instances outside the evaluation set: anything
+        for pos, c in enumerate(content):
+            b[c] = a[c] + diff_at(pos)
+        spec = {"kind_row": kind, "cls": rng.choice(CLASSES), "eval_content": content, "fresh_content": rng.sample(range(POOL), M),
+                "train_content": rng.sample(range(POOL), rng.randint(2, 6)), "bb": rng.randint(1, M + 1),
+                "bl_table": a, "cand_table": b, "alpha": alpha}
+        exp, p, t2 = expected_decision(spec)
+        if p is not None and t2 is not None and abs(p - alpha) < 1e-4:
+            return None                        # too close to the threshold for float32 p-values: not a decidable row
+        out.append(spec)
+        return spec
+
+    reps = 2 if ctx.tier == "quick" else 6
+    for _ in range(reps):
+        M = rng.randint(4, 6)
+        jit = [rng.randint(0, 8) for _ in range(POOL)]
+        add("clearly-better", M, lambda q: 64 + jit[q], 0.05)                              # t ~ -50: p ~ 1e-6
+        add("clearly-worse", M, lambda q: -64 - jit[q], 0.05)
+        add("better-not-significant", 4, lambda q: (128 if q % 2 == 0 else -100) + jit[q] % 3, 0.05)    # mean +14, sd ~ 130: p ~ 0.4
+        add("equal-identical", rng.randint(2, 5), lambda q: 0, 0.05)
+        add("equal-means-different-vectors", 4, lambda q: (16, -16, 40, -40)[q], 0.05)
+        add("n=2-significant", 2, lambda q: (64, 68)[q], 0.05)                             # t = -33, one-sided p = 0.0096
+        add("n=2-not-significant", 2, lambda q: (64, 192)[q], 0.05)                        # t = -2,  one-sided p = 0.148
+        add("constant-differences", rng.randint(2, 5), lambda q: 32, 0.05)                 # zero variance: t = -inf, p = 0
+        add("constant-differences-alpha-0", rng.randint(2, 5), lambda q: 32, 0.0)
+        add("n=1-better", 1, lambda q: 64, 0.05)                                           # nan statistic: the assert fails
+        add("n=1-worse", 1, lambda q: -64, 0.05)
+    n_rand = 10 if ctx.tier == "quick" else 60
+    tries = 0
+    while n_rand > 0 and tries < 1000:
+        tries += 1
+        amp = rng.choice([4, 16, 64])
+        off = rng.choice([0, 0, 8, 24])
+        ds = [rng.randint(-amp, amp) + off for _ in range(POOL)]
+        base = add("random", rng.randint(2, 6), lambda q: ds[q], rng.choice([0.01, 0.05, 0.2, 0.5]))
+        if base is None:
+            continue
+        n_rand -= 1
+        # the same row shifted and scaled (exact: powers of two, still negative): the decision must not change
+        # (C17_update_shift_invariant / C17_update_scale_invariant)
+        k, c = rng.choice([2, 4]), 64 * rng.randint(-3, 0)
+        v = dict(base, kind_row="random-shifted-scaled", bl_table=[k * x + c for x in base["bl_table"]],
+                 cand_table=[k * x + c for x in base["cand_table"]])
+        e2 = expected_decision(v)
+        assert e2[0] == expected_decision(base)[0]
+        if e2[1] is None or e2[2] is None or abs(e2[1] - v["alpha"]) >= 1e-4:
+            out.append(v)
+    return out
+
+
+def run_decision_case(world, spec):
+    """drives the REAL RolloutBaseline: setup(incumbent) -> epoch_callback(candidate) -> wrap_dataset(training set)"""
+    t = T()
+    torch = t["torch"]
+    import torch.nn as nn
+    from torch.utils.data import DataLoader
+    from rl4co.models.rl.reinforce.baselines import RolloutBaseline
+
+    class TablePolicy(nn.Module):
+        """row-wise: the reward of an instance is looked up by the instance's identity"""
+
+        def __init__(self, tag, table):
+            super().__init__()
+            self.w = nn.Parameter(torch.zeros(1))
+            self.tag, self.table = tag, list(table)
+
+        def forward(self, td, env=None, phase=None, decode_type=None, **kw):
+            ids = [identify("locs", td["locs"][r], world.pool) for r in range(td["locs"].shape[0])]
+            return {"reward": torch.tensor([self.table[i] / 64.0 for i in ids], dtype=torch.float32)}
+
+    def ids_of(ds):
+        return [identify("locs", b["locs"][r], world.pool) for b in DataLoader(ds, batch_size=3, collate_fn=ds.collate_fn)
+                for r in range(b["locs"].shape[0])]
+
+    env = world.env(spec["cls"])
+    M, bb = len(spec["eval_content"]), spec["bb"]
+    res = {"error": None}
+    bl = RolloutBaseline(bl_alpha=spec["alpha"])
+    env.generator.plan = [list(spec["eval_content"])]
+    bl.setup(TablePolicy("incumbent", spec["bl_table"]), env, batch_size=bb, device="cpu", dataset_size=M)
+    res["before"] = {"bl_vals_x64": [scaled(v, 64) for v in bl.bl_vals.tolist()], "mean": float(bl.mean), "dataset_ids": ids_of(bl.dataset)}
+    ds_before = bl.dataset
+    env.generator.plan = [list(spec["fresh_content"])]
+    try:
+        bl.epoch_callback(TablePolicy("candidate", spec["cand_table"]), env, bb, "cpu", 1, M)
+    except Exception as e:  # noqa: BLE001
+        res["error"] = "%s: %s" % (type(e).__name__, str(e)[:120])
+    res["replaced"] = None if res["error"] else (bl.policy.tag == "candidate")
+    res["after"] = {"policy": bl.policy.tag, "bl_vals_x64": [scaled(v, 64) for v in bl.bl_vals.tolist()], "mean": float(bl.mean),
+                    "dataset_ids": ids_of(bl.dataset), "same_dataset_object": bl.dataset is ds_before,
+                    "fresh_set_generated": len(env.generator.plan) == 0}
+    if res["error"] is None:
+        env.generator.plan = [list(spec["train_content"])]
+        tr = env.dataset(len(spec["train_content"]), phase="train")
+        w = bl.wrap_dataset(tr, env, batch_size=bb, device="cpu")
+        res["next_wrap_extra_x64"] = wrapper_extra(tr, w, 64)
+    return res
+
+
+def judge_decision(spec, res):
+    """-> None | (unit, mechanism, detail)"""
+    exp, p, t2 = expected_decision(spec)
+    unit = "RolloutBaseline.epoch_callback"
+    row = "%s row, n=%d, alpha=%s, incumbent %s, candidate %s (rewards*64 on the evaluation set), one-sided p=%s" % (
+        spec["kind_row"], len(spec["eval_content"]), spec["alpha"], [spec["bl_table"][c] for c in spec["eval_content"]],
+        [spec["cand_table"][c] for c in spec["eval_content"]], p)
+    if exp is None:
+        return None                            # n = 1 and a better mean: nan statistic, outside the decision's domain (correspondence only)
+    if res["error"] is not None:
+        return unit, "raises on a decidable challenge", "%s: %s" % (row, res["error"])
+    if res["replaced"] != exp:
+        return unit, "baseline update decision differs from (better mean and significant)", \
+            "%s: expected %s, the baseline policy was %s" % (row, "REPLACED" if exp else "KEPT", "replaced" if res["replaced"] else "kept")
+    a = res["after"]
+    cur = spec["cand_table"] if res["replaced"] else spec["bl_table"]
+    want_ids = spec["fresh_content"] if res["replaced"] else spec["eval_content"]
+    want_vals = [cur[c] for c in want_ids]
+    want_mean = sum(want_vals) / 64.0 / len(want_vals)
+    if a["dataset_ids"] != list(want_ids) or a["bl_vals_x64"] != want_vals or abs(a["mean"] - want_mean) > 1e-5 * max(1.0, abs(want_mean)) \
+            or a["same_dataset_object"] == res["replaced"]:
+        return unit, "stored baseline values are not the current policy's on the stored evaluation set", \
+            "%s: after the callback (%s) the baseline holds dataset %s, bl_vals*64 %s, mean %s; expected dataset %s, bl_vals*64 %s, mean %s" % (
+                row, "replaced" if res["replaced"] else "kept", a["dataset_ids"], a["bl_vals_x64"], a["mean"], list(want_ids), want_vals, want_mean)
+    want_extra = [cur[c] for c in spec["train_content"]]
+    if res["next_wrap_extra_x64"] != want_extra:
+        return "RolloutBaseline.wrap_dataset(%s)" % spec["cls"], "reward-not-aligned-with-instance", \
+            "%s: the training set wrapped after the callback carries %s, the current policy's values are %s" % (row, res["next_wrap_extra_x64"], want_extra)
+    return None
+
+
+def c_dec_case(spec, res):
+    cand = [Fraction(spec["cand_table"][c], 64) for c in spec["eval_content"]]
+    bl = [Fraction(spec["bl_table"][c], 64) for c in spec["eval_content"]]
+    _, n, t2, _ = decision_stats([spec["cand_table"][c] for c in spec["eval_content"]], [spec["bl_table"][c] for c in spec["eval_content"]])
+    p = oracle_p(t2, n - 1) if t2 is not None else 0.0
+    ql = lambda xs: "[" + "; ".join(cq(x) for x in xs) + "]"
+    obs = "None" if res["error"] is not None else "(Some %s)" % ("true" if res["replaced"] else "false")
+    return "DC %s %s %s %s %s %s" % (ql(cand), ql(bl), cq(Fraction(spec["alpha"])), c_opt(None if t2 is None else cq(t2)), cq(Fraction(p)), obs), \
+        (None if t2 is None else (n - 1, t2, p))
+
+
 def run(ctx: Ctx, proofs_ok: bool):
     import logging
     logging.getLogger("rl4co").setLevel(logging.ERROR)      # 'val_file not set. Generating dataset instead' x N
@@ -638,7 +833,9 @@ def run(ctx: Ctx, proofs_ok: bool):
                 "(add_key with extras tagged uniquely per wrapper and position; real RolloutBaseline with 4 stub policies whose rewards differ on "
                 "every instance: setup -> wrap_dataset -> epoch(s) -> _update_policy / epoch_callback -> wrap_dataset of the SAME dataset -> epoch(s)), "
                 "reads interleaved (loaders b = 1..N+1, sequential/shuffled, final partial batch, single items, older wrappers), whole trace "
-                "compared with the store model.  non-trivial = N >= 2 and (>= 2 batches or shuffled or extra key)")
+                "compared with the store model.  DECISION TABLE: real epoch_callback with table policies (rewards k/64 per pool instance, all "
+                "negative), 11 designed rows x 2 + 10 random rows + their shifted/scaled twins, n = 1..6, alpha in {0, .01, .05, .2, .5}, rows "
+                "within 1e-4 of the threshold rejected.  non-trivial = N >= 2 and (>= 2 batches or shuffled or extra key)")
     ctx.assumptions += [
         "torch DataLoader contract (K3, trusted, observed): SequentialSampler = 0..n-1, RandomSampler = a permutation, BatchSampler(drop_last=False) = consecutive chunks; num_workers = 0 only (workers > 0 NOT exercised)",
         "the baseline policy acts row by row (Section hypothesis polB_rowwise, shared with C14); the stub policy of the harness satisfies it by construction",
@@ -957,6 +1154,53 @@ def run(ctx: Ctx, proofs_ok: bool):
                               "(100000*event + 12 wrapper's extras / 20+k single item / 100*batch+k emitted batch / 5,6 raise mismatch / 7 length / 8 kind; 9002 order not a permutation) %s"
                               % (len(nz), diag, c, {k: v for k, v in m.items() if k in ("kind", "spec", "events")}))
 
+    # ================================================================== 2c. epoch_callback: the decision table
+    dcases, dmetas, pts = [], [], []
+    for spec in decision_specs(ctx):
+        try:
+            res = run_decision_case(hworld, spec)
+        except Exception as e:  # noqa: BLE001 -- setup or the next wrap failed
+            res = {"error": "%s: %s" % (type(e).__name__, str(e)[:200]), "replaced": None, "after": None, "outside_callback": True}
+        exp, p, t2 = expected_decision(spec)
+        robj = {"kind": "decision", "spec": spec, "pool_points": hworld.insts, "tours": [list(x) for x in hworld.tours],
+                "expected_replaced": exp, "oracle_one_sided_p": p, "t_squared": None if t2 is None else str(t2), "observed": res}
+        ctx.seen({"d": spec}, nontrivial=len(spec["eval_content"]) >= 2)
+        ctx.count("decision_rows_%s" % spec["kind_row"])
+        ctx.count("decision_expected_%s" % {True: "replace", False: "keep", None: "undefined(n=1)"}[exp])
+        if res.get("outside_callback"):
+            report("RolloutBaseline.epoch_callback", "setup-or-next-wrap-raises", res["error"], robj)
+            continue
+        term, pt = c_dec_case(spec, res)
+        dcases.append(term)
+        dmetas.append(robj)
+        if pt is not None:
+            pts.append(pt)
+        bad = judge_decision(spec, res)
+        if bad:
+            report(bad[0], bad[1], bad[2], robj)
+        if spec["kind_row"] in ("clearly-better", "better-not-significant", "n=2-not-significant") and sum(1 for x in ctx.samples if x.get("unit") == "epoch_callback decision") < 3:
+            ctx.sample({"unit": "epoch_callback decision", "spec": spec, "expected_replaced": exp, "oracle_p": p, "observed": res})
+    try:
+        codes = coq_eval_shards("cases_C17_dec", HEADER_UPD, "dcase", "check_decision", dcases, shard=200)
+        uniq = sorted(set((df, t2, p) for df, t2, p in pts))
+        mono = coq_eval_shards("cases_C17_pmono", HEADER_UPD, "list (nat * Q * Q)", "check_pmono",
+                               ["[" + "; ".join("(%s, %s, %s)" % (cnat(df), cq(t2), cq(Fraction(p))) for df, t2, p in uniq) + "]"])
+    except RuntimeError as e:
+        codes = None
+        ctx.broken.append("correspondence C17/epoch_callback decision could not be evaluated: %s" % str(e)[-600:])
+    if codes is not None:
+        nz = [(i, c) for i, c in enumerate(codes) if c != 0]
+        ctx.units["RolloutBaseline.epoch_callback decision (Data/BaselineUpdate.v)"] = {
+            "cases": len(codes), "disagreements": len(nz), "oracle points (df, t^2, p) checked monotone": len(uniq),
+            "monotonicity violations among the sampled points": mono[0]}
+        if mono[0] != 0:
+            ctx.broken.append("assumption C17/pv_mono: scipy's one-sided p-value is not monotone decreasing in t^2 on %d sampled pair(s)" % mono[0])
+        if nz:
+            i, c = nz[0]
+            ctx.broken.append("correspondence C17/epoch_callback decision: model and implementation differ on %d case(s); first: code %d "
+                              "(1 decision differs; 3 the harness's t^2 is not the model's; 5 model raises, impl returns; 6 impl raises) %s"
+                              % (len(nz), c, {k: v for k, v in dmetas[i].items() if k in ("spec", "expected_replaced", "oracle_one_sided_p", "observed")}))
+
     for name, fn, typ, cs, ms in (("update", "check_update", "ucase", ucases, umetas), ("rollout", "check_rollout", "rcase", rcases, rmetas)):
         try:
             codes = coq_eval_shards("cases_C17_" + name, HEADER, typ, fn, cs, shard=120)
@@ -1163,6 +1407,26 @@ def replay(obj):
             print("   recorded:", json.dumps(rec[j]) if j < len(rec) else "(not reached)")
             print("   now     :", json.dumps(outs[j]) if j < len(outs) else "(not reached)")
         print("property on the current tree:", "HOLDS on this case" if bad is None else "FAILS: %s: %s -- %s" % bad)
+        return 0
+    if obj.get("kind") == "decision" and obj.get("pool_points"):
+        import logging
+        logging.getLogger("rl4co").setLevel(logging.ERROR)
+        world = World(insts=obj["pool_points"], tours=obj["tours"])
+        spec = obj["spec"]
+        exp, p, t2 = expected_decision(spec)
+        print("row      :", spec["kind_row"], " class:", spec["cls"], " alpha:", spec["alpha"], " eval batch size:", spec["bb"])
+        print("evaluation set (pool ids):", spec["eval_content"], " incumbent rewards*64:", [spec["bl_table"][c] for c in spec["eval_content"]],
+              " candidate rewards*64:", [spec["cand_table"][c] for c in spec["eval_content"]])
+        print("property : replace iff the candidate's mean is strictly better and the one-sided paired t-test gives p < alpha; here t^2 = %s, p = %s -> %s"
+              % (t2, p, {True: "REPLACE", False: "KEEP", None: "undefined (n = 1)"}[exp]))
+        try:
+            res = run_decision_case(world, spec)
+            bad = judge_decision(spec, res)
+            print("recorded :", json.dumps(obj.get("observed")))
+            print("now      :", json.dumps(res))
+            print("property on the current tree:", "HOLDS on this case" if bad is None else "FAILS: %s: %s -- %s" % bad)
+        except Exception as e:  # noqa: BLE001
+            print("property on the current tree: FAILS (raises) %s: %s" % (type(e).__name__, e))
         return 0
     if obj.get("kind") == "rollout_history" and obj.get("pool_points"):
         import logging
